@@ -70,6 +70,10 @@ func StringToAmount(s string) (massutil.Amount, error) {
 	if len(s1) > 2 {
 		return massutil.ZeroAmount(), fmt.Errorf("illegal number format")
 	}
+	// at least one digit is required ("" and "." are not numbers)
+	if len(s1[0]) == 0 && (len(s1) == 1 || len(s1[1]) == 0) {
+		return massutil.ZeroAmount(), fmt.Errorf("illegal number format")
+	}
 	var sInt, sFrac string
 	// preproccess integral part
 	sInt = strings.TrimLeft(s1[0], "0")
@@ -90,7 +94,8 @@ func StringToAmount(s string) (massutil.Amount, error) {
 	if err != nil {
 		return massutil.ZeroAmount(), err
 	}
-	if i < 0 || uint64(i) > consensus.MaxMass {
+	// strconv.ParseInt accepts a leading sign, an amount does not
+	if i < 0 || sInt[0] == '+' || sInt[0] == '-' || uint64(i) > consensus.MaxMass {
 		return massutil.ZeroAmount(), fmt.Errorf("integral part is out of range")
 	}
 
@@ -98,7 +103,7 @@ func StringToAmount(s string) (massutil.Amount, error) {
 	if err != nil {
 		return massutil.ZeroAmount(), err
 	}
-	if f < 0 {
+	if f < 0 || sFrac[0] == '+' || sFrac[0] == '-' {
 		return massutil.ZeroAmount(), fmt.Errorf("illegal number format")
 	}
 
